@@ -16,6 +16,7 @@ import Ladybug.Proofs.C03Stats
 import Ladybug.Proofs.C03Samples
 import Ladybug.Proofs.C03Month
 import Ladybug.Proofs.C03Mph
+import Ladybug.Proofs.C03Obj
 
 open Cal
 
@@ -540,3 +541,143 @@ theorem C03_total_additive (a b : List Rat) :
   ⟨total_append a b, total_perm⟩
 
 end Stats
+
+/-! ### Histories on one object (round 3): Model/GroupObj.lean
+
+  `Obj` is the collection as stored (with the lazily filled `_datetimes` slot of a continuous
+  collection), `Pub` the public state, `Pub.fresh` the constructor, `Obj.step` one operation
+  (reads; `values = …`, `coll[i] = v`, `convert_to_culled_timestep`), `Obj.after ops` the object after
+  a history.  The state machine is compared with the real classes step by step on every run. -/
+
+namespace Grp
+
+/-- **Reads are pure**: a read (it may fill the `_datetimes` slot of a continuous collection) changes
+    neither the public state nor the answer of any later read – so the same question asked twice gets
+    the same answer, and reads can be made in any order. -/
+theorem C03_read_pure (o : Obj) (r r' : Read) :
+    (o.read r).1.pub = o.pub ∧ ((o.read r).1.read r').2 = (o.read r').2 ∧
+    ((o.read r).1.read r).2 = (o.read r).2 :=
+  ⟨same_pub (read_same o r), same_read_out (read_same o r) r', same_read_out (read_same o r) r⟩
+
+theorem after_reads_same (rs : List Read) : ∀ o : Obj, Same (o.after (rs.map .read)) o := by
+  induction rs with
+  | nil => intro o; exact Same.rfl' o
+  | cons r rest ih =>
+    intro o
+    exact (ih (o.read r).1).trans (read_same o r)
+
+/-- **Order independence of reads**: after any sequence of reads, in any order and with any
+    repetitions, every read answers as on the untouched object, and the public state is the same. -/
+theorem C03_reads_order_independent (o : Obj) (rs : List Read) (r : Read) :
+    ((o.after (rs.map .read)).read r).2 = (o.read r).2 ∧ (o.after (rs.map .read)).pub = o.pub :=
+  ⟨same_read_out (after_reads_same rs o) r, same_pub (after_reads_same rs o)⟩
+
+/-- **A refused operation leaves every observation unchanged**: when a step answers with an error
+    class (wrong length or non-list for `values =`, index out of range, invalid timestep, any mutator
+    on an immutable twin, percentile / count outside the documented range), a refused mutator returns
+    the very same object, and after any refused step the public state and the answer of every later
+    read are as before. -/
+theorem C03_refused_preserves (o : Obj) (op : Op) (e : Refusal) (h : (o.step op).2 = .refused e) :
+    (∀ m, op = .mut m → (o.step op).1 = o) ∧ (o.step op).1.pub = o.pub ∧
+    ∀ r, ((o.step op).1.read r).2 = (o.read r).2 := by
+  rcases op with r0 | m
+  · refine ⟨fun m hm => (by cases hm), same_pub (read_same o r0), fun r => same_read_out (read_same o r0) r⟩
+  · have hm : (o.mutate m).1 = o := mutate_refused o m e h
+    refine ⟨fun _ _ => hm, ?_, fun r => ?_⟩
+    · show (o.mutate m).1.pub = o.pub
+      rw [hm]
+    · show ((o.mutate m).1.read r).2 = (o.read r).2
+      rw [hm]
+
+/-- an immutable discontinuous collection with two values (non-vacuity of the refusal) -/
+def sampleImm : Obj :=
+  Pub.fresh ⟨.disc, true, ⟨1, 1, 0, 1, 1, 23, 1, false⟩, [1, 2], [⟨1, 1, 0, 0, false⟩, ⟨1, 1, 1, 0, false⟩], []⟩
+
+example : (sampleImm.step (Op.mut (Mut.setitem 0 5))).2 = Out.refused Refusal.attr := rfl
+
+/-- **Every history refines the fresh object**: start from any object whose slot is not stale (e.g. a
+    freshly constructed one), run ANY history of reads, accepted mutators and refused operations (no
+    bound on its length) in which every culling step on a continuous collection is grid-faithful; then
+    the slot is still not stale, and every read answers exactly as on the object a constructor call
+    would build from the final public state – the hidden `_datetimes` slot never shows.
+    (Grid-faithfulness – the datetimes surviving `convert_to_culled_timestep(ts)` are the datetimes of
+    the period at `ts` – is proved for the unchanged timestep in `C03_cull_same_timestep`; for a
+    timestep dividing the current one it is evaluated on samples and compared with the code on every
+    run, not proved: it is a statement about the enumeration of the period, C04's subject.) -/
+theorem C03_history_refines_fresh (o : Obj) (hinv : Inv o) (ops : List Op) (hf : FaithfulHist o ops)
+    (r : Read) :
+    Inv (o.after ops) ∧ (o.run ops).1 = o.after ops ∧
+    ((o.after ops).read r).2 = ((o.after ops).pub.fresh.read r).2 :=
+  ⟨inv_after ops o hinv hf, run_fst ops o,
+   same_read_out (inv_same_fresh _ (inv_after ops o hinv hf)) r⟩
+
+theorem step_kind (o : Obj) (op : Op) : (o.step op).1.kind = o.kind := by
+  rcases op with r | m
+  · exact (read_same o r).1
+  · show (o.mutate m).1.kind = o.kind
+    unfold Obj.mutate
+    by_cases hi : o.imm = true
+    · simp [hi]
+    · simp only [hi]
+      cases m with
+      | setvals v =>
+        cases v with
+        | none => rfl
+        | some v => by_cases hc : v.length = o.expectedLen ∧ (o.kind = .cont ∨ v ≠ []) <;> simp [hc]
+      | setitem i v =>
+        by_cases hc : 0 ≤ (if i < 0 then i + (o.vals.length : Int) else i) ∧
+            (if i < 0 then i + (o.vals.length : Int) else i) < (o.vals.length : Int) <;> simp [hc]
+      | cull ts =>
+        by_cases hd : o.kind = .daily
+        · simp [hd]
+        · by_cases hc : 0 ≤ ts ∧ ts.toNat ∈ Gen.Ap.validTimesteps <;> simp [hd, hc]
+
+theorem faithful_of_not_cont (ops : List Op) : ∀ o : Obj, o.kind ≠ .cont → FaithfulHist o ops := by
+  induction ops with
+  | nil => intro _ _; trivial
+  | cons op rest ih =>
+    intro o hk
+    refine ⟨?_, ih _ (by rw [step_kind]; exact hk)⟩
+    rcases op with r | m
+    · trivial
+    · cases m with
+      | cull ts => intro hc; exact absurd hc hk
+      | setvals v => trivial
+      | setitem i v => trivial
+
+/-- **Discontinuous and daily collections: every history refines the fresh object, unconditionally**
+    (any reads, `values =`, `coll[i] =`, `convert_to_culled_timestep`, refused operations, in any
+    order and number): every read after the history answers as on the object constructed from the
+    final public state. -/
+theorem C03_history_refines_fresh_disc (p : Pub) (hk : p.kind ≠ .cont) (ops : List Op) (r : Read) :
+    ((p.fresh.after ops).read r).2 = ((p.fresh.after ops).pub.fresh.read r).2 :=
+  (C03_history_refines_fresh p.fresh (inv_fresh p) ops (faithful_of_not_cont ops p.fresh hk) r).2.2
+
+/-- **Culling a continuous collection to its own timestep is grid-faithful** (every datetime of a
+    well-formed period lies on its own grid, so all survive and the slot holds the period's
+    datetimes). -/
+theorem C03_cull_same_timestep (o : Obj) (hwf : o.ap.WF) (hinv : Inv o) :
+    Faithful o (.mut (.cull (o.ap.timestep : Int))) := by
+  intro hk _ _
+  have hds : o.datetimes = contDts o.ap := by
+    unfold Obj.datetimes
+    cases hs : o.dts with
+    | none => rfl
+    | some d => exact hinv hk d hs
+  have hap : ({ o.ap with timestep := ((o.ap.timestep : Int)).toNat } : AP) = o.ap := by
+    simp
+  rw [hap, hds]
+  unfold cullDts
+  apply List.filter_eq_self.mpr
+  intro d hd
+  have := contDts_on_grid o.ap hwf d hd
+  unfold cullKeep
+  simp only [Int.toNat_natCast, decide_eq_true_eq]
+  exact this
+
+-- evaluated (a test, not a theorem): culling 4 → 2 → 1 steps per hour on a wrapping leap-year period
+#guard cullDts 2 (contDts ⟨12, 30, 0, 1, 2, 23, 4, true⟩) = contDts ⟨12, 30, 0, 1, 2, 23, 2, true⟩ ∧
+  cullDts 1 (contDts ⟨12, 30, 0, 1, 2, 23, 2, true⟩) = contDts ⟨12, 30, 0, 1, 2, 23, 1, true⟩ ∧
+  cullDts 5 (contDts ⟨2, 28, 0, 3, 1, 23, 60, true⟩) = contDts ⟨2, 28, 0, 3, 1, 23, 5, true⟩
+
+end Grp
